@@ -9,6 +9,7 @@ Export == Done =>
                             nodes  |-> NodeSeq,
                             top    |-> IF IsPop THEN <<sc.top>> ELSE <<>>,
                             pre    |-> IsPop /\ sc.pre,
+                            init   |-> IF IsPop /\ "init" \in DOMAIN sc THEN SetToSeq(sc.init) ELSE <<>>,
                             res    |-> result,
                             exact  |-> exact,
                             opt    |-> TheOpt,
